@@ -1,6 +1,8 @@
 package harness
 
 import (
+	"strings"
+	"runtime"
 	"context"
 	"encoding/binary"
 	"errors"
@@ -133,10 +135,22 @@ type spySent struct {
 
 func (s *spyService) SendReplicationMessage(tg []byte) {
 	e := spySent{tgid: int64(binary.LittleEndian.Uint64(tg)), addrs: map[string]bool{}}
-	for a := range s.inner.StreamChannels {
+	for _, a := range s.inner.VerifRegistered() {
 		e.addrs[a] = true
 	}
 	s.sent = append(s.sent, e)
+	if verboseLog && len(s.sent) >= 2 && s.sent[len(s.sent)-2].tgid == e.tgid {
+		buf := make([]byte, 1<<20)
+		buf = buf[:runtime.Stack(buf, true)]
+		for _, g := range strings.Split(string(buf), "\n\n") {
+			if strings.Contains(g, "FlushCommandsToWAL") || strings.Contains(g, "FlushToWAL") {
+				fmt.Println("  FLUSHER:", g)
+			}
+		}
+	}
+	if verboseLog {
+		fmt.Printf("  SPY fan-out tgid=%d len=%d task=%s t=%d\n", e.tgid, len(tg), simrt.S.TaskName(simrt.CurTaskID()), simrt.NowNanos())
+	}
 	s.inner.SendReplicationMessage(tg)
 }
 
@@ -509,6 +523,13 @@ func c26Engine() *Engine {
 			var got []int64
 			for _, m := range c.link.recv {
 				got = append(got, int64(binary.LittleEndian.Uint64(m)))
+			}
+			if verboseLog {
+				var all []int64
+				for _, e := range spy.sent {
+					all = append(all, e.tgid-spy.sent[0].tgid)
+				}
+				fmt.Printf("  C26 conn %s sent(rel)=%v got=%v exp=%v\n", c.link.addr, all, got, exp)
 			}
 			for i := 1; i < len(got); i++ {
 				if got[i] <= got[i-1] {
